@@ -406,6 +406,10 @@ def gen_plan_c05(rng, tier, idx, opts):
             inc["set_delete"] = rng.random() < 0.5
         if k > 0 and rng.random() < 0.35:
             inc["set_rep_max"] = max(1, cfg["rep_max"] + rng.choice([-2, -1, 1, 2, 3, 5]))
+        if k < n - 1 and not has_name and rng.random() < 0.2:
+            # the user program (or Ctrl-C) raises out of simulate() somewhere; nothing is on disk, and simulate() is called again
+            # (on the same runner or a new one): this call must satisfy the statement on its own
+            inc["fault"] = {"at": rng.randint(1, 60), "action": "kill_soft"}
         if k > 0 and not has_name and rng.random() < 0.3:
             # the grid itself changes on the live runner: a parameter is un-marked / a list-valued one is marked for unpacking
             cands = [("unmark", nm) for nm in sorted(cfg["unpacked"])] + [("mark", nm) for nm, v in sorted(cfg["fixed"].items()) if isinstance(v, (list, dict))]
